@@ -152,7 +152,9 @@ where
 		let extensions = extensions.clone();
 
 		tokio::spawn(async move {
-			let first_non_whitespace = data.iter().enumerate().take(128).find(|(_, byte)| !byte.is_ascii_whitespace());
+			// JSON whitespace only: anything else (e.g. a form feed) is left for the JSON parser to reject.
+			let first_non_whitespace =
+				data.iter().enumerate().take(128).find(|(_, byte)| !matches!(**byte, b' ' | b'\t' | b'\n' | b'\r'));
 
 			let (idx, is_single) = match first_non_whitespace {
 				Some((start, b'{')) => (start, true),
